@@ -96,7 +96,7 @@ def member_subjects(n, orbits, k, seed, tag):
         for i in range(k):
             rng = fw.rng_for(tag, seed, n, o, i)
             # generator presentation rotates over classes and members: densely mixed / lightly mixed and reordered / sparse graph-like / heaviest group elements / CSS form
-            style = [True, "light", False, "heavy", "css"][(o + i) % 5]
+            style = [True, "light", False, "heavy", "css", "uniform"][(o + i) % 6]
             gens, info = members.member(n, o, rng, signs="plus", mix=style)
             yield gens, rng, {"source": "class-member", "orbit": o, "member_graph": info["graph"], "index": i, "mixing": str(style)}
 
